@@ -228,8 +228,8 @@ func c01Families(quick bool) c01Params {
 	return c01Params{
 		fams: []family{
 			{Name: "plain", Space: gen.NewSpace(2, 2, 2, 2, false)},
-			{Name: "plain-l3", Space: gen.NewSpace(2, 2, 2, 3, false)},
-			{Name: "plain3", Space: gen.NewSpace(3, 2, 2, 2, false)},
+			{Name: "plain-l3", Space: gen.NewSpace(2, 2, 2, 3, false), Limit: 2000000},
+			{Name: "plain3", Space: gen.NewSpace(3, 2, 2, 2, false), Limit: 3000000},
 			{Name: "plain-t3", Space: gen.NewSpace(2, 3, 2, 2, false)},
 			{Name: "sugar", Space: gen.NewSpace(2, 2, 2, 2, false), Sugar: true},
 			{Name: "plain-names", Space: gen.NewSpace(2, 2, 2, 2, false), Names: 1},
@@ -238,7 +238,7 @@ func c01Families(quick bool) c01Params {
 			{Name: "wide7", Wide: &wideFam{K: 7, N: 10000}, L: 3, Lpos: 9, Npos: 400},
 			{Name: "wide-names", Wide: &wideFam{K: 5, N: 10000}, L: 3, Lpos: 9, Npos: 400, Names: 1},
 		},
-		L: 8, Lpos: 12, Npos: 2000,
+		L: 7, Lpos: 11, Npos: 1000,
 	}
 }
 
